@@ -633,6 +633,13 @@ class SymArr:
     def __iter__(self):
         v = dim_value(self.shape_[0])
         if v is None:
+            gi = cur().ghost.get("generic_iteration")
+            if gi is not None:
+                # for-each verified for an ARBITRARY iteration: the iterator yields the element at the symbolic index k (0 <= k < len is the
+                # proof's hypothesis; every array iterated in lock-step is recorded so that the proof can state that they are equally long)
+                gi["arrays"].append(self)
+                return iter([self[SInt(gi["k"])]])
+
             def lazy_fail():
                 raise Unsupported("iteration over an array of symbolic length")
                 yield
@@ -678,8 +685,14 @@ class SymArr:
         total = z3.simplify(dim_term(n) * kt)
         addr = self.addr
         kv = dim_value(k)
+        ab = _registered_divisor(kt) if kv is None else None
         if kv == 1:
             na = lambda i: addr(i, z3.IntVal(0))
+        elif ab is not None:
+            # C order with the registered symbolic width s: flat i is (i // s, i - (i // s) * s) in factored form; n * s is MUL(n)
+            DIV, MUL = ab["DIV"], ab["MUL"]
+            total = MUL(dim_term(n))               # n * s in factored form: the size stays a linear term
+            na = lambda i: addr(DIV(i), i - MUL(DIV(i)))
         else:
             na = lambda i: addr(py_floordiv(i, kt) if kv is None else i / kt, py_mod(i, kt) if kv is None else i % kt)
         r = SymArr((total,), self.buf, na, self.dtype)
@@ -712,10 +725,16 @@ class SymArr:
                 raise ValueError("cannot reshape array")
             b = z3.simplify(total / at)
         else:
-            if not cur().branch(dim_term(a) * dim_term(b) == total, "reshape"):
+            ab0 = _registered_divisor(dim_term(b)) if bv is None else None
+            prod = ab0["MUL"](dim_term(a)) if ab0 is not None else dim_term(a) * dim_term(b)
+            if not cur().branch(prod == total, "reshape"):
                 raise ValueError("cannot reshape array")
         bt = dim_term(b)
         faddr = flat.addr
+        ab = _registered_divisor(bt) if dim_value(b) is None else None
+        if ab is not None:
+            MUL = ab["MUL"]
+            return SymArr((a, b), self.buf, lambda i, j: faddr(MUL(i) + j), self.dtype)
         return SymArr((a, b), self.buf, lambda i, j: faddr(i * bt + j), self.dtype)
 
     def view(self, dtype=None):
@@ -880,7 +899,16 @@ class SymArr:
         return symnp.SYMNP.nonzero(self)
 
     def tolist(self):
+        if cur().ghost.get("generic_iteration") is not None:
+            return SymPyList(self)
         raise Unsupported("tolist() of a symbolic array")
+
+
+class SymPyList:
+    """the Python list of an array's elements (ndarray.tolist()), kept as the array it was made from"""
+
+    def __init__(self, arr):
+        self.arr = arr
 
 
 class _NotArrayLike(Exception):
@@ -1061,6 +1089,21 @@ def broadcast_shapes(sa, sb):
     return tuple(out), adapter(ma, na), adapter(mb, nb)
 
 
+def _registered_mul(name, arr, t):
+    """x * s for the registered symbolic divisor s (see div_abstraction) is written MUL(x): keeps the VCs linear"""
+    ab = cur().ghost.get("div_abstraction")
+    if name == "multiply" and ab is not None and arr.kind == "int" and z3.is_expr(t) and kind_of_term(t) == "int" and ab["divisor"].eq(z3.simplify(t)):
+        return ab["MUL"]
+    return None
+
+
+def _registered_divisor(kt):
+    ab = cur().ghost.get("div_abstraction")
+    if ab is not None and z3.is_expr(kt) and ab["divisor"].eq(z3.simplify(kt)):
+        return ab
+    return None
+
+
 def binary(name, a, b, dtype=None):
     oa, ob = as_operand(a), as_operand(b)
     if oa[0] == "scalar" and ob[0] == "scalar":
@@ -1070,6 +1113,9 @@ def binary(name, a, b, dtype=None):
         snap = arr.snapshot()
         t = oa[1]
         rd = result_dtype_binary(name, oa[2] if not isinstance(a, (int, bool)) else arr.dtype, arr.dtype)
+        mul = _registered_mul(name, arr, t)
+        if mul is not None:
+            return SymArr.fresh(arr.shape_, lambda *i: mul(snap(*i)), "int", dtype or rd)
         probe = apply_binary(name, t, snap(*[z3.IntVal(0)] * arr.ndim))
         return SymArr.fresh(arr.shape_, lambda *i: apply_binary(name, t, snap(*i)), kind_of_term(probe), dtype or rd)
     if ob[0] == "scalar":
@@ -1081,6 +1127,9 @@ def binary(name, a, b, dtype=None):
             shifted.nz, shifted.nz_shift = arr.nz, getattr(arr, "nz_shift", 0) + z3.simplify(t).as_long()
             return shifted
         rd = result_dtype_binary(name, arr.dtype, ob[2] if not isinstance(b, (int, bool)) else arr.dtype)
+        mul = _registered_mul(name, arr, t)
+        if mul is not None:
+            return SymArr.fresh(arr.shape_, lambda *i: mul(snap(*i)), "int", dtype or rd)
         ab = cur().ghost.get("div_abstraction")
         if name == "floor_divide" and ab is not None and arr.kind == "int" and z3.is_expr(t) and ab["divisor"].eq(z3.simplify(t)):
             # division by the registered symbolic positive divisor s in factored form (keeps the VCs linear): DIV(a) is the unique Q
